@@ -18,8 +18,15 @@ import (
 // mode 0: none present; 1: all present; 2: only site idx present; 3: all but site idx; 4: independent choice per site
 var verifOptMode, verifOptIdx, verifOptCounter int
 
+// verifOptFixed >= 0 pins the shape mode (used when a harness needs a second, non-varying frame)
+var verifOptFixed = -1
+
 func verifOptSetup(maxSites int) {
 	verifOptCounter = 0
+	if verifOptFixed >= 0 {
+		verifOptMode, verifOptIdx = verifOptFixed, 99
+		return
+	}
 	if verifThorough {
 		verifOptMode = 4
 		return
@@ -55,6 +62,9 @@ func verifOpt(name string) bool {
 
 // verifOptDone prunes shapes whose index exceeds the number of sites actually visited.
 func verifOptDone() {
+	if verifOptFixed >= 0 {
+		return
+	}
 	if (verifOptMode == 2 || verifOptMode == 3) && verifOptIdx >= verifOptCounter {
 		nd.Assume(false)
 	}
